@@ -180,7 +180,14 @@ def run_tables(rep, shapes):
     work = []
     for G, T in shapes:
         tables = list(itertools.product(SCORES, repeat=G * T))
-        orders = [None] if T == 1 else [list(p) for p in itertools.permutations(range(T))]
+        # completion orders of the pooled trials: permutations of the trials of a grid point and - should the jobs
+        # of several grid points share one pool - of all G*T jobs (all of them up to 4 jobs, else three)
+        J = G * T
+        if J <= 4:
+            orders = [None] + [list(p) for p in itertools.permutations(range(J))][1:]
+        else:
+            orders = [None, list(range(J))[::-1], list(range(1, J)) + [0]] + \
+                     ([list(p) for p in itertools.permutations(range(T))][1:] if T > 1 else [])
         step = max(1, len(tables) // 64)
         for i in range(0, len(tables), step):
             work.append((G, T, tables[i:i + step], orders))
@@ -195,6 +202,41 @@ def run_tables(rep, shapes):
              rule=f"ALL score tables over {SCORES} for (grid points, trials) in {shapes} x min/max x every execution "
                   "order of the trials of a grid point and eager / lazy pickling of the work items, through the real HyperTuner.execute + resolve on ScriptOpt "
                   "with the model process pool; oracle on the call log and on best_parameters / best_score")
+
+
+def run_reuse(rep):
+    """one tuner object used for two execute() calls (another direction / other scores): the second call's verdict must
+    only depend on the second call"""
+    n = 0
+    pools.install()
+    try:
+        tables = list(itertools.product(SCORES, repeat=2))
+        for t1 in tables:
+            for t2 in tables:
+                for mm1, mm2 in (('min', 'max'), ('min', 'min'), ('max', 'min')):
+                    keys = [(('k', i),) for i in range(2)]
+                    ht = HyperTuner(so.ScriptOptA(), {'k': [0, 1]})
+                    so.reset(table={k: [t1[i]] for i, k in enumerate(keys)})
+                    with contextlib.redirect_stdout(io.StringIO()):
+                        ht.execute(so.task0(so.T0, mm1), n_trials=1)
+                    so.reset(table={k: [t2[i]] for i, k in enumerate(keys)})
+                    with contextlib.redirect_stdout(io.StringIO()):
+                        ht.execute(so.task0(so.T1, mm2), n_trials=1)
+                    n += 1
+                    best = (min if mm2 == 'min' else max)(t2)
+                    bp = ht.best_parameters
+                    ok = isinstance(bp, dict) and bp.get('k') in (0, 1) and t2[bp['k']] == best and \
+                        abs(float(ht.best_score) - best) < 1e-12
+                    if not ok:
+                        rep.finding('C19|HyperTuner|second-execute-on-the-same-tuner-depends-on-the-first',
+                                    f"first call scores {t1} ({mm1}), second call scores {t2} ({mm2}): best_parameters {bp}, "
+                                    f"best_score {ht.best_score}", {'kind': 'e3', 'module': 'c19', 'case': {'part': 'reuse'}})
+    finally:
+        pools.uninstall()
+    rep.part('tuner-reuse', n, n, states=n, transitions=2 * n, validated=n,
+             samples=[{'first_call': {'scores': [0, 2], 'direction': 'min'}, 'second_call': {'scores': [1, -1], 'direction': 'max'}}],
+             rule="every pair of score tables (2 grid points, 1 trial) x three direction pairs through two consecutive "
+                  "execute() calls on ONE HyperTuner object; oracle on the second call only")
 
 
 def run_modes_and_conformance(rep):
@@ -236,6 +278,7 @@ def run(rep, tier):
         run_tables(rep, [(2, 1), (3, 1), (2, 2), (3, 2)])
     else:
         run_tables(rep, [(2, 1), (3, 1), (4, 1), (2, 2), (3, 2), (4, 2), (2, 3)])
+    run_reuse(rep)
     run_modes_and_conformance(rep)
     rep.assume("scores over the alphabet {-1,0,1,2}; ties may be broken any way", "ScriptOpt: real optimize(), scripted populations")
 
@@ -253,6 +296,8 @@ def replay(case):
             pools.uninstall()
         for what, d in finds:
             rep.finding(f"C19|HyperTuner|{what}", d, {})
+    elif case['part'] == 'reuse':
+        run_reuse(rep)
     else:
         run_modes_and_conformance(rep)
     return rep.findings
